@@ -334,7 +334,7 @@ def broadcast_frame(o):
     bad = []
     for on, pn, okind, pkind, drop in rows:
         def thunk():
-            world = World(o.I)
+            world = World(o.I, can_fail=False)     # the frame condition constrains returning paths only: executions in which a pandas operation raises are not explored
             o.I.libs.update({'numpy': HavocNS(world, 'np'), 'pandas': HavocNS(world, 'pd'), 'uuid': UuidNS()})
             oi, pi = GIndex(world, on, 'obj.index'), GIndex(world, pn, 'parameter.index')
             obj, prm = GOperand(world, okind, oi, 'obj'), GOperand(world, pkind, pi, 'parameter')
@@ -356,8 +356,31 @@ def broadcast_frame(o):
             ok = (obj.index is oi and prm.index is pi and oi.names == list(on) and pi.names == list(pn))
             if not ok:
                 bad.append((on, pn, okind, pkind, drop, [type(obj.index).__name__, oi.names, type(prm.index).__name__, pi.names]))
-    o.prove('every returning path: both operands hold their original index object with its original level names', z3.BoolVal(not bad), kind='frame')
-    o.prove('the exploration has returning paths for every layout and raising paths', z3.BoolVal(total_ret >= len(rows) and total_raise >= 10), kind='shape')
+    def replay(item, model):
+        # native replay: small concrete operands of every layout through the real method
+        import warnings
+        import pandas as pd
+        from pylife.core.broadcaster import Broadcaster
+        warnings.simplefilter('ignore')
+        for on, pn, okind, pkind, drop in rows:
+            def mk(names, kind, base):
+                keys = [(0, 'x', 5), (1, 'y', 6), (2, 'x', 7)]
+                idx = pd.Index([k[0] for k in keys], name=names[0]) if len(names) == 1 else pd.MultiIndex.from_tuples([k[:len(names)] for k in keys], names=list(names))
+                vals = [base + i for i in range(len(keys))]
+                return pd.Series(vals, index=idx, name='v') if kind == 'series' else pd.DataFrame({'u': vals, 'w': vals}, index=idx)
+            obj, prm = mk(on, okind, 10.0), mk(pn, pkind, 20.0)
+            so, sp = obj.index.copy(deep=True), prm.index.copy(deep=True)
+            try:
+                Broadcaster(obj)._broadcast_frame_to_frame(prm, list(drop))
+            except Exception:   # noqa
+                continue
+            if not (obj.index.equals(so) and prm.index.equals(sp) and list(obj.index.names) == list(on) and list(prm.index.names) == list(pn)):
+                return {'reproduced': True, 'inputs': {'object_levels': list(on), 'parameter_levels': list(pn), 'object': okind, 'parameter': pkind, 'droplevel': list(drop)},
+                        'outputs': {'object_index_names_after': [str(x) for x in obj.index.names], 'parameter_index_names_after': [str(x) for x in prm.index.names],
+                                    'object_index_restored': bool(obj.index.equals(so)), 'parameter_index_restored': bool(prm.index.equals(sp))}}
+        return {'reproduced': False, 'reason': 'the operands of all layouts come back with their index on small concrete frames'}
+    o.prove('every returning path: both operands hold their original index object with its original level names', z3.BoolVal(not bad), kind='frame', replay=replay)
+    o.prove('the exploration has returning paths for every layout', z3.BoolVal(total_ret >= len(rows)), kind='shape')
     if bad:
         o.note(f"first violating layout: {bad[0]}")
     o.note(f"{len(rows)} layouts (level names x operand kinds x droplevel), {total_ret} returning and {total_raise} raising paths explored")
@@ -366,11 +389,13 @@ def broadcast_frame(o):
 
 
 META = {
-    'level': 'exploration',
-    'explanation': "bounded stand-in (labelled): the alignment contract of Broadcaster.broadcast is evaluated on the real code over every enumerated combination of object kind, "
-                   "parameter kind and small index layout (names, level order, key sets, unnamed levels), plus the operands-unmodified frame condition by deep comparison with "
-                   "snapshots; pandas alignment internals are outside the reach of contracts.",
-    'not_decided': ["layouts beyond the enumerated sizes", "exceptional exits between index re-coding and restore leave the temporary integer index on the operands (outside the statement)"],
-    'trusted_base': ['pandas'],
-    'rule': "layouts enumerated completely up to the stated bound; non-trivial = operands with different indices",
+    'level': 'other',
+    'explanation': "mixed. Proved (frame condition): the real Broadcaster._broadcast_frame_to_frame with _IndexLevelCache and the two name-replacement helpers, run over ghost operands "
+                   "whose index slot and level names are tracked while every pandas / numpy operation returns an arbitrary object: for each listed layout of level names, operand kinds "
+                   "and droplevel, and for arbitrary data, every returning execution leaves both operands with their own original index object carrying its original level names. "
+                   "Bounded stand-in (labelled) for the alignment contract itself (identical result index, row values by key, NaN for missing keys) over every enumerated combination "
+                   "of object kind, parameter kind and small index layout; pandas alignment internals are outside the reach of contracts.",
+    'not_decided': ['alignment for layouts beyond the enumerated sizes', 'exceptional exits between index re-coding and restore leave the temporary integer index on the operands (outside the statement)',
+                    'the frame condition for level-name layouts other than the listed ones'],
+    'trusted_base': ['pandas alignment semantics (bounded check only)', 'ghost model of the operands (pv/ghost.py)'],
 }
